@@ -14,6 +14,9 @@ Decides the representation-invariant discipline of TestCase and the length guard
  * _find_variable_of_type, interpreted over representative test cases for every position, offers
    exactly the matching variables bound before the position; the factory never consults the
    whole-test-case type registry.
+ * delete_statement_gracefully, interpreted over every well-formed 4-statement test case and position,
+   leaves no read without a remaining earlier binder and removes nothing outside the name-based
+   dependency closure (C15.cascade).
 Def-before-use after arbitrary operator histories (cursor arithmetic of the recursive emitters) is
 not decided.
 """
@@ -21,6 +24,9 @@ not decided.
 from __future__ import annotations
 
 import ast
+import itertools
+
+from sa.engine import peval
 import re
 
 from sa.engine.cfg import CFG
@@ -169,6 +175,91 @@ def _find_variable_bounded(ctx, repo, fn) -> None:
             ctx.check("C15.bound-before-use", fn, sorted(cands) == sorted(want), f"_find_variable_of_type(test case, {raw.__name__}, position={position}) offers {cands}, the variables of that type bound before the position are {want}" + (f": {late} " + "is" * (len(late) == 1) + "are" * (len(late) != 1) + " bound at or after the position - the statement built there reads a name that is not defined yet (NameError when the test runs)" if late else ": reusable variables are withheld"), what=f"{label} candidates == variables bound before the position", stmt=label)
 
 
+def _cascade(ctx, repo) -> None:
+    """delete_statement_gracefully, interpreted over every well-formed 4-statement test case (a statement binds a
+    fresh name, re-binds the first name, or binds nothing; it reads any subset of the names bound before it) and
+    every position: afterwards no remaining statement reads a name without a remaining earlier binder, and nothing
+    outside the name-based dependency closure of the deleted statement is removed."""
+    TF = "pynguin.testcase.testfactory"
+    fn = repo.try_func(TF, "TestFactory.delete_statement_gracefully")
+    if fn is None:
+        raise AnalysisError("anchor vanished: TestFactory.delete_statement_gracefully")
+    ctx.analysed(fn)
+    mod = repo.module(TF)
+    N = 4
+    shapes = []
+
+    def rec(i, bound_so_far, acc):
+        if i == N:
+            shapes.append(list(acc))
+            return
+        avail = sorted(bound_so_far)
+        for bv in ([None, f"v{i}"] + (["v0"] if i >= 1 and "v0" in bound_so_far else [])):
+            for r in range(len(avail) + 1):
+                if r > 2:
+                    break
+                for used in itertools.combinations(avail, r):
+                    acc.append((bv, frozenset(used)))
+                    rec(i + 1, bound_so_far | ({bv} if bv else set()), acc)
+                    acc.pop()
+
+    rec(0, frozenset(), [])
+    n = 0
+    shown = 0
+    for shape in shapes:
+        for position in range(N):
+            removed: list = []
+            stmts = []
+            for bv, used in shape:
+                o = peval.Obj("stmt", fields={"bound_variable": bv})
+                o.methods["used_variables"] = lambda used=used: set(used)
+                stmts.append(o)
+            tcase = peval.Obj("test_case")
+            tcase.methods["size"] = lambda: N
+            tcase.methods["statements"] = lambda stmts=stmts: list(stmts)
+            tcase.methods["remove_statements_batch"] = lambda idxs, removed=removed: removed.append(set(idxs))
+            tcase.methods["remove_statement"] = lambda idx, removed=removed: removed.append({idx})
+            tag = f"[cascade] {[(b, sorted(u)) for b, u in shape]} delete {position}"
+            it = peval.Interp(resolver=peval.repo_resolver(repo), max_steps=20000)
+            try:
+                it.run_function(fn, [tcase, position], {}, mod)
+            except (peval.Undecided,) as exc:
+                ctx.undecide("C15.cascade", fn, f"{tag}: {exc}")
+                return
+            except peval.Raises as exc:
+                ctx.fail("C15.cascade", fn, f"{tag}: raises {exc.name}", stmt="[cascade] raises")
+                return
+            gone = set().union(*removed) if removed else set()
+            # name-based closure (upper bound) and well-formedness (lower bound)
+            dead = {shape[position][0]} - {None}
+            closure = {position}
+            ch = True
+            while ch:
+                ch = False
+                for i in range(position + 1, N):
+                    if i not in closure and shape[i][1] & dead:
+                        closure.add(i)
+                        if shape[i][0] and shape[i][0] not in dead:
+                            dead.add(shape[i][0])
+                        ch = True
+            dangling = []
+            for i in range(N):
+                if i in gone:
+                    continue
+                for u in shape[i][1]:
+                    if not any(j not in gone and shape[j][0] == u for j in range(i)):
+                        dangling.append((i, u))
+            ok = position in gone and not dangling and gone <= closure
+            n += 1
+            if not ok and shown < 3:
+                shown += 1
+                ctx.fail("C15.cascade", fn, f"{tag}: removes {sorted(gone)} (name-based closure {sorted(closure)}); statement/name pairs left without a binder: {dangling}: the test case reads a variable whose producing statement was deleted (or loses unrelated statements)", stmt=f"[cascade] {'dangling read' if dangling else 'unrelated removal'}")
+            elif ok:
+                ctx.ok("C15.cascade", fn, what=tag)
+    if n < 1000:
+        raise AnalysisError(f"C15.cascade: only {n} cases")
+
+
 def check(ctx) -> None:
     repo = ctx.repo
     ctx.rule("C15.writers", "WHO-MAY: the private representation of TestCase / Statement is written only in testcase/testcase.py", floor=10)
@@ -186,6 +277,8 @@ def check(ctx) -> None:
         for c_ in own_nodes(fn_):
             if isinstance(c_, ast.Call) and isinstance(c_.func, ast.Attribute) and c_.func.attr == "variables_of_type" or (isinstance(c_, ast.Attribute) and c_.attr == "_type_registry"):
                 ctx.fail("C15.bound-before-use", c_, f"{qn_} looks candidates up in the type registry of the whole test case (`{norm(c_)[:60]}`): it also holds variables that are bound after the position the statement is built for, so a statement can read a variable before it is defined", stmt=f"[{qn_}] registry lookup")
+    ctx.rule("C15.cascade", "ABSINT: delete_statement_gracefully over every well-formed 4-statement test case and position leaves no read without a remaining earlier binder and removes nothing outside the name-based dependency closure", floor=1000)
+    _cascade(ctx, repo)
     ctx.rule("C15.container", "ABSINT: TestCase interpreted from source over representative statements - registry == bound variables of the statements after add / chop / remove_statements_batch, clone and original share nothing an operation changes, chop(p) keeps statements 0..p", floor=10)
     _container_laws(ctx, repo)
     ctx.rule("C15.length", "crossover installs the offspring only under `<finished offspring>.size() < chromosome_length` read after its last change; insertion loops test the size in their loop condition", floor=3)
